@@ -160,3 +160,63 @@ def padded_mask(ctx, fx, files=None, rule="R-PADMASK", only=None):
                                       ">= len is returned" % (fid.rsplit("::", 1)[-1], c["ln"]), fn.file, c["ln"])
     ctx.instance(rule + ".sites", n)
     return n
+
+
+# ------------------------------------------------------------------ R-IDENTITY
+def ptr_identity_fast_path(ctx, fx, files=None, rule="R-IDENTITY", only=None):
+    """"same start address => equal" is only true for slices of the same length. Where a function compares the
+    `as_ptr()` of two slice parameters and one outcome of that comparison returns without looking at the contents, the
+    lengths of the two slices are compared as well (in the same condition or on a dominating branch). A prefix and the
+    whole buffer start at the same address."""
+    import re as _re
+    from vlib.mir import Fn, op_local
+    n = 0
+    for f in (files or fx.files()):
+        for fid in fx.fn_ids(f):
+            if "::tests::" in fid or (only and not only(fid)):
+                continue
+            for k in range(fx.count(fid)):
+                fn = Fn(fx.raw(fid, k))
+                slices = [i for i in range(1, fn.nargs + 1) if _re.match(r"&(mut )?\[", fn.ty(i).replace("'{erased} ", ""))]
+                if len(slices) < 2:
+                    continue
+                ptr_of = {}
+                for b, c in fn.calls():
+                    if c["f"].rsplit("::", 1)[-1] in ("as_ptr", "as_mut_ptr") and c["a"] and op_local(c["a"][0]) is not None:
+                        src = set(fn.backslice([op_local(c["a"][0])], max_nodes=12)[0]) | {op_local(c["a"][0])}
+                        for s in slices:
+                            if s in src:
+                                for l in fn.forward_locals([c["d"][0]]) | {c["d"][0]}:
+                                    ptr_of.setdefault(l, set()).add(s)
+                if not ptr_of:
+                    continue
+                lens = set()
+                for loc, st in fn.iter_locs():
+                    if st[0] == "a" and st[2][0] == "un" and st[2][1] == "PtrMetadata" and op_local(st[2][2]) is not None:
+                        lens |= fn.forward_locals([st[1][0]]) | {st[1][0]}
+                    if st[0] == "call" and st[1]["f"].rsplit("::", 1)[-1] == "len":
+                        lens |= fn.forward_locals([st[1]["d"][0]]) | {st[1]["d"][0]}
+                for loc, st in fn.iter_locs():
+                    if not (st[0] == "a" and st[2][0] == "bin" and st[2][1] in ("Eq", "Ne") and len(st[1]) == 1):
+                        continue
+                    x, y = op_local(st[2][2]), op_local(st[2][3])
+                    if x is None or y is None or not (ptr_of.get(x) and ptr_of.get(y)) or ptr_of[x] == ptr_of[y]:
+                        continue
+                    if "*" not in fn.ty(x) and "NonNull" not in fn.ty(x):
+                        continue
+                    n += 1
+                    ctx.analysed_fns.add(fid)
+                    # a comparison of the lengths somewhere that dominates, or is dominated by, this test
+                    ok = False
+                    for loc2, s2 in fn.iter_locs():
+                        if s2[0] == "a" and s2[2][0] == "bin" and s2[2][1] in ("Eq", "Ne", "Lt", "Le", "Gt", "Ge") and \
+                                op_local(s2[2][2]) in lens and op_local(s2[2][3]) in lens:
+                            if fn.dominates(loc2[0], loc[0]) or fn.dominates(loc[0], loc2[0]):
+                                ok = True
+                    ctx.obligation(rule, fid, "pointer identity test accompanied by a length test", ok, sample={"fn": fid, "line": st[3]})
+                    if not ok:
+                        ctx.violation(rule, fid, "equal start address taken for equal slices",
+                                      "%s compares the start addresses of its two slice arguments (line %d) and never compares their "
+                                      "lengths: a slice and its own prefix are reported equal" % (fid.rsplit("::", 1)[-1], st[3]), fn.file, st[3])
+    ctx.instance(rule + ".tests", n)
+    return n
